@@ -122,6 +122,9 @@ pub struct Profile {
     pub bad_permille: u64,
     /// permille of load operations whose buffer is torn / corrupted
     pub load_fault_permille: u64,
+    /// permille of calls that handle SHORT-NAME elements like ordinary elements (create / copy / move them directly) or
+    /// copy and move elements that were removed before - legal calls that build models the loader would reject
+    pub abuse_permille: u64,
 }
 
 pub fn w(k: K, n: u32) -> (K, u32) {
@@ -382,10 +385,17 @@ impl<'a> Gen<'a> {
         }
         if self.permille(self.prof.bad_permille) {
             // some name that may or may not be valid here
-            return Some(self.rng.pick(&["SHORT-NAME", "ELEMENTS", "AR-PACKAGE", "VALUE", "L-2", "SD"]).to_string());
+            if self.permille(self.prof.abuse_permille) {
+                return Some("SHORT-NAME".to_string());
+            }
+            return Some(self.rng.pick(&["ELEMENTS", "AR-PACKAGE", "VALUE", "L-2", "SD"]).to_string());
         }
+        let abuse = self.permille(self.prof.abuse_permille);
         for _ in 0..24 {
             let c = self.rng.pick(&all);
+            if c == ElementName::ShortName && !abuse {
+                continue;
+            }
             if fits(c) {
                 return Some(c.to_str().to_string());
             }
@@ -666,7 +676,20 @@ impl<'a> Gen<'a> {
                 }
                 let (_, ms) = self.primary()?;
                 // source: any non-root node (sometimes stale / foreign); destination: a parent that accepts the source's kind
-                let src_h = self.pick_elem(&|n| n.parent.is_some())?;
+                let abuse = self.permille(self.prof.abuse_permille);
+                let src_h = if abuse {
+                    self.pick_elem(&|n| n.parent.is_some())?
+                } else {
+                    // a live element that is not a SHORT-NAME
+                    let m = if self.view.models.len() > 1 && self.permille(self.prof.foreign_permille) {
+                        let i = 1 + self.rng.below(self.view.models.len() - 1);
+                        &self.view.models[i]
+                    } else {
+                        self.primary()?
+                    };
+                    let n = self.pick_node_in(&m.1, &|n| n.parent.is_some() && n.name != ElementName::ShortName)?;
+                    self.node_h(n)?
+                };
                 let src = self.world.elem(src_h)?;
                 let src_name = src.element_name();
                 if matches!(k, K::ECopy | K::ECopyAt) {
